@@ -63,6 +63,8 @@ type Decision struct {
 	Val  uint64
 	Excl []uint64 // for "other values" concretisation items
 	Kind byte     // 'b' branch, 'c' choose, 'v' value
+	N    int      // 'c': number of alternatives when the decision was made (replay check)
+	Site string   // 'c': where (replay check)
 }
 
 type Input struct {
@@ -440,7 +442,14 @@ func (in *Interp) choose(n int) int {
 	if n <= 1 {
 		return 0
 	}
+	site := ""
+	if in.curFrame != nil {
+		site = in.curFrame.fn.String()
+	}
 	if d, ok := in.nextPrefix(); ok {
+		if d.Kind != 'c' || (d.N != 0 && d.N != n) || (d.Site != "" && d.Site != site) {
+			panic(pathEnd{"unsupported", fmt.Sprintf("engine nondeterminism: the re-execution of a decision prefix reached a choice of %d at %s where the first execution had a %c-decision of %d at %s", n, site, d.Kind, d.N, d.Site)})
+		}
 		in.record(d)
 		return int(d.Val)
 	}
@@ -449,9 +458,9 @@ func (in *Interp) choose(n int) int {
 		if in.modelOK {
 			m = in.model
 		}
-		in.fork(Decision{Val: uint64(i), Kind: 'c'}, m)
+		in.fork(Decision{Val: uint64(i), Kind: 'c', N: n, Site: site}, m)
 	}
-	in.record(Decision{Val: 0, Kind: 'c'})
+	in.record(Decision{Val: 0, Kind: 'c', N: n, Site: site})
 	return 0
 }
 
